@@ -31,11 +31,11 @@ def render(p):
 def syn(p):
     return "%d:%d:%s:%d" % (p["pct"], p["neg"], p["digs"] or "~", p["dots"])
 
-def gen_expr(rng, no_neg_head=False, layout=False):
+def gen_expr(rng, no_neg_head=False, layout=False, plus_ok=False):
     h = gen_part(rng, True)
     if no_neg_head: h["neg"] = False
     ps = [(rng.choice("^^^+"), gen_part(rng, False)) for _ in range(rng.choice([0, 0, 1, 1, 2, 3, 6]))]
-    if no_neg_head and ps and render(h) == "":
+    if no_neg_head and ps and render(h) == "" and not plus_ok:
         ps[0] = ("^", ps[0][1])      # after a note letter a leading '+' would be a sharp, not a separator
     # a part consisting of '%' alone followed by nothing numeric is fine ("^%" adds default)
     text = render(h) + "".join(sep + render(p) for sep, p in ps)
@@ -78,7 +78,13 @@ def streams(tier, rng, P, only=None, cases=None):
         n = 3000 if big else 500
         for i in range(n):
             form = rng.choice(["rest", "note", "noten", "l", "lsub", "bang_time", "bang_arg", "after_res", "nol", "nol", "div", "div", "divin", "chord", "chord"])
-            text, s, k = gen_expr(rng, True, layout=(form in ("rest", "note", "l") and rng.random() < 0.4))
+            # (in the length slot of a numbered note a leading '+' is a separator after an omitted head, as '^' is: `n61,+4`)
+            text, s, k = gen_expr(rng, True, layout=(form in ("rest", "note", "l") and rng.random() < 0.4), plus_ok=(form == "noten"))
+            if form == "noten" and rng.random() < 0.5:
+                # the bare shapes `+N` / `^N` (one plain number after an omitted head), with and without the comma before the slot
+                e0 = dict(pct=False, neg=False, digs="", dots=0); p0 = dict(pct=False, neg=False, digs=rng.choice(["4", "8", "2", "16", "0", "1"]), dots=rng.choice([0, 0, 1]))
+                sep0 = rng.choice("+^")
+                text = sep0 + render(p0); s = syn(e0) + ";%d/%s" % (ord(sep0), syn(p0)); k = 1 + p0["dots"]
             tb = rng.choice([48, 96, 120, 480, 960])
             tbw = tb      # the number written after TimeBase (form `nol` also writes numbers outside 48..32767: the time base in effect is the clamped one)
             dtext, ds, _ = gen_expr(rng, True)
